@@ -160,14 +160,8 @@ Section RuleModel.
      casts that is the shared copy, which later rules keep writing to: a container value therefore
      shows the final state of the copy (scalars are immutable and stay as judged). *)
   Definition refresh_failure (final : pyval) (f : failure) : failure :=
-    match f_value f with
-    | VList _ | VDict _ =>
-        match get_at final (path_keys (f_path f)) with
-        | Some v => {| f_index := f_index f; f_value := v; f_path := f_path f; f_reasons := f_reasons f |}
-        | None => f
-        end
-    | _ => f
-    end.
+    {| f_index := f_index f; f_value := refreshed_value final (f_value f) (path_keys (f_path f));
+       f_path := f_path f; f_reasons := f_reasons f |}.
   Definition refresh_test (final : pyval) (r : rule) (t : rtest) : rtest :=
     match r_cast r with
     | [] => t
